@@ -47,9 +47,22 @@ def spec_items(tier):
                                    [F(9, 10), F(1)])
         yield from build.chain_mdps(3, [F(9, 10)], [F(-1), F(0)])
         yield from cut_family()
+        yield from dead_end_family()
     else:
         yield from cut_family()
+        yield from dead_end_family()
         yield from build.thorough_mdps(gammas=(F(9, 10), F(1)), nonpositive_when_undiscounted=False)
+
+
+def dead_end_family():
+    """n = 2, 3 with a state that offers no action at all (a dead end, not absorbing unless declared so)."""
+    one = F(1)
+    for d0 in [((1, one),), ((0, F(1, 2)), (1, F(1, 2))), ((1, F(1, 2)), (2, F(1, 2)))]:
+        for ab in [(), (1,), (2,)]:
+            for g in [F(9, 10), F(1)]:
+                n = 3
+                T = ((('a', d0, F(-1)), ('b', ((2, one),), F(-2))), (), (('a', ((2, one),), F(0)),))
+                yield ('mdp', n, T, ab, ((0, one),), g)
 
 
 def cut_family():
@@ -106,8 +119,6 @@ def check(item, tier):
     spec_item, ztgt = with_zero_entry(base_item, zmode)
     spec = Spec(spec_item)
     r.count('states')
-    if spec.dead_ends():
-        return r
     with warnings.catch_warnings():
         warnings.simplefilter('ignore')
         np.seterr(all='ignore')
@@ -247,9 +258,10 @@ def check(item, tier):
             try:
                 p1 = ValueIteration(max_residual=1e-9, max_iterations=5000).plan_on(mdp)
                 p2 = ValueIteration(max_residual=1e-9, max_iterations=5000).plan_on(other)
-                if not (np.array_equal(np.array(p1.state_value), np.array(p2.state_value)) and
-                        np.array_equal(np.array(p1.policy), np.array(p2.policy)) and
-                        list(p1.policy.state_list) == list(p2.policy.state_list) and p1.initial_value == p2.initial_value):
+                same_iv = p1.initial_value == p2.initial_value or (p1.initial_value != p1.initial_value and p2.initial_value != p2.initial_value)
+                if not (np.array_equal(np.array(p1.state_value), np.array(p2.state_value), equal_nan=True) and
+                        np.array_equal(np.array(p1.policy), np.array(p2.policy), equal_nan=True) and
+                        list(p1.policy.state_list) == list(p2.policy.state_list) and same_iv):
                     bad(name + ':planning_result', {'base': np.array(p1.state_value), 'other': np.array(p2.state_value)})
             except BaseException as e:
                 bad(name + ':planning_exception', {'error': repr(e)[:300]})
